@@ -184,6 +184,7 @@ package ringz
 //@     assert pos == seq ==> (r.st[t0 % r.cap] <= 1 && r.tk[t0 % r.cap] == t0)
 //@   at after-call3:
 //@     assert last_ret ==> r.T == t0
+//@     ghost r.T = ite(last_ret, r.T + 1, r.T)
 //@     assert last_ret ==> (r.H <= t0 && t0 < r.H + r.cap && r.st[t0 % r.cap] == 0 && r.tk[t0 % r.cap] == t0)
 //@     ghost mine = ite(last_ret, t0, 0 - 1)
 //@     ghost r.st = ite(last_ret, store(r.st, t0 % r.cap, 1), r.st)
@@ -208,6 +209,8 @@ package ringz
 //@   sharedinv rgSlotE(r)
 //@   rely rgRelyShape(r) && rgRelySlots(r)
 //@   rely h0 >= 0 ==> r.H < h0 + 2147483648
+// (the next clause is the instance i = h0 % cap of rgRelySlots, spelled out so that the solvers need not find it)
+//@   rely (h0 >= 0 && old(r.st[h0 % r.cap]) == 2 && r.H <= old(r.tk[h0 % r.cap])) ==> (r.st[h0 % r.cap] == 2 && r.tk[h0 % r.cap] == old(r.tk[h0 % r.cap]))
 //@   rely mine >= 0 ==> (r.st[mine % r.cap] == 3 && r.tk[mine % r.cap] == mine && r.values[mine % r.cap].pos == old(r.values[mine % r.cap].pos))
 //@   guarantee rgRelyShape(r) && rgRelySlots(r)
 //@   guarantee forall i in 0..r.cap: old(r.st[i]) == 1 ==> (r.st[i] == 1 && r.tk[i] == old(r.tk[i]) && r.values[i].pos == old(r.values[i].pos))
@@ -236,3 +239,43 @@ package ringz
 //@   at after-call4:
 //@     ghost r.st = store(r.st, mine % r.cap, 0)
 //@     ghost r.tk = store(r.tk, mine % r.cap, mine + r.cap)
+
+// Init on a zero-value ring establishes the shared invariant (all slots free for tickets 0..cap-1)
+//@ func SyncRing.Init@rg
+//@   requires r != nil && r.head == 0 && r.tail == 0 && 0 < cap && cap <= 2147483648
+//@   modifies *r
+//@   ensures rgShape(r) && rgCount(r) && rgSlotA(r) && rgSlotB(r) && rgSlotC(r) && rgSlotD(r) && rgSlotE(r)
+//@   loop 1:
+//@     invariant r.cap >= 2 && r.cap <= 2147483648 && ispow2(r.cap) && r.mask == r.cap - 1 && len(r.values) == r.cap && fresh(r.values) && r.head == 0 && r.tail == 0
+//@     invariant forall k in 0..i: r.values[k].pos == k
+//@     decreases len(r.values) - i
+//@   at end:
+//@     ghost r.H = 0
+//@     ghost r.T = 0
+//@     ghost r.tk = idseq()
+//@     ghost r.st = seqdef k: 0
+
+// Len under interference: always inside [0, Cap()]
+//@ func SyncRing.Len@rg
+//@   wraps
+//@   sharedinv rgShape(r) && rgCount(r)
+//@   rely rgRelyShape(r)
+//@   guarantee rgRelyShape(r) && r.H == old(r.H) && r.T == old(r.T)
+//@   ensures 0 <= result && result <= r.cap
+
+// FINDING F11 (known, not repaired): the same proof WITHOUT the assumption that fewer than 2^31 operations complete
+// between a goroutine's read of the tail and its CAS. The 32-bit ticket then no longer identifies the tail position:
+// the obligation below fails. It is listed in /verif/known_findings.json under exactly this name.
+//@ func SyncRing.Push@f11
+//@   nomerge
+//@   wraps
+//@   ghost t0 = 0 - 1
+//@   requires r.cap == 2
+//@   sharedinv rgShape(r) && 0 <= r.H && r.H <= r.T && r.head == r.H % 4294967296 && r.tail == r.T % 4294967296
+//@   rely rgRelyShape(r) && r.cap == 2
+//@   guarantee rgRelyShape(r)
+//@   at after-call1:
+//@     ghost t0 = r.T
+//@   at after-call3:
+//@     assert last_ret ==> r.T == t0
+//@     ghost r.T = ite(last_ret, r.T + 1, r.T)
